@@ -57,7 +57,7 @@ func spell(r *Run, p string) string {
 func determinismMem(r *Run) {
 	t := r.T
 	par1Set := t.Bool(1, 4, "par1")
-	w := GenWorld(r, GenOpts{Par1: par1Set, MaxFiles: 6, MaxTotal: 24 << 10, MaxR: 6})
+	w := GenWorld(r, GenOpts{Par1: par1Set, MaxFiles: 6, MaxTotal: 72 << 10, MaxR: 6})
 	base := w.Disk.Clone()
 	var canon map[string][]byte
 	create := func(label string, paths []string, index string, g int, spec SchedSpec) {
